@@ -1179,7 +1179,13 @@ class Engine:
                     if r1 == 'unsat':
                         obs.append({'name': name, 'status': 'ok', 'how': 'z3', 'nontrivial': True})
                     elif r1 == 'unknown':
-                        obs.append({'name': name, 'status': 'unknown', 'how': 'z3', 'detail': detail, 'nontrivial': True})
+                        nm = self._numeric_cex(neg)
+                        if nm is not None:
+                            self.stats.bump('numeric_cex')
+                            obs.append({'name': name, 'status': 'cex', 'how': 'numeric-search', 'detail': detail + ' (solver unknown; numeric candidate)',
+                                        'model': {k: str(v) for k, v in nm.items()}, 'nontrivial': True})
+                        else:
+                            obs.append({'name': name, 'status': 'unknown', 'how': 'z3', 'detail': detail, 'nontrivial': True})
                     else:
                         already = any(o['status'] == 'cex' and _base(o['name']) == _base(name) for o in obs)
                         model = None if already else self.model_for([neg], vs, self.ob_timeout_ms)
@@ -1221,10 +1227,10 @@ class Engine:
                 verdict = 'unknown'
         return verdict
 
-    def _generic_linear_model(self):
+    def _generic_linear_model(self, seed=12345):
         """a model of the linear PC in which free variables take generic (pseudo-random) values"""
         import random
-        rnd = random.Random(12345)
+        rnd = random.Random(seed)
         sL = self.solverL
         sL.push()
         try:
@@ -1245,7 +1251,7 @@ class Engine:
         finally:
             sL.pop()
 
-    def _numeric_witness(self, m):
+    def _numeric_witness(self, m, extra=(), want_env=False):
         import itertools
         env = {}
         defined = set(si for si, _ in self.sqrt_defs)
@@ -1290,9 +1296,26 @@ class Engine:
                     good = False
                     break
             if good:
+                for x in extra:
+                    if not z3.is_true(z3.simplify(z3.substitute(x, *subs))):
+                        good = False
+                        break
+            if good:
                 self.stats.bump('numeric_witnesses')
-                return True
-        return False
+                return e2 if want_env else True
+        return None if want_env else False
+
+    def _numeric_cex(self, neg):
+        """solver answered unknown: look for a counterexample numerically (generic models of the linear PC,
+        defined variables computed from their relations); whatever is found is still replayed on the float code"""
+        for seed in (12345, 777, 4242, 99, 31337, 2718):
+            m = self._generic_linear_model(seed)
+            if m is None:
+                continue
+            env = self._numeric_witness(m, extra=(neg,), want_env=True)
+            if env:
+                return {VARS.names[i]: v for i, v in env.items()}
+        return None
 
 
 def _base(name):
